@@ -136,8 +136,8 @@ func ToExpr(args []interface{}, types []reflect.Type, isVariadic bool) ([]Expr, 
 		if expr, ok := a.(Expr); ok {
 			expressions[i] = expr
 		} else {
-			// 兼容可变参数
-			if isVariadic {
+			// 兼容可变参数: 只有可变参数位置才取数组的元素类型
+			if isVariadic && i >= len(types)-1 {
 				typ = typ.Elem()
 			}
 			// 默认使用 equals 表达式
